@@ -260,6 +260,9 @@ class G:
     def dial(self, n):
         return self.st(n)[-2]
 
+    def never(self, n):
+        return self.st(n)[-3]
+
     def closure(self, S):
         S = set(S)
         stack = list(S)
@@ -364,7 +367,7 @@ def scenarios(g, cfg, rng, conf=None):
         lab = g.lab[l]
         f = g.ef[e]
         if lab["op"] == "Stop":
-            key = (g.pool(f), g.dial(f), g.acts(f))
+            key = (g.pool(f), g.dial(f) + 10 * g.never(f), g.acts(f))
             at = dict(lab["at"])
             at.pop("stop", None)
             keys.setdefault(key, set()).add(tuple(sorted(at.items())))
@@ -373,7 +376,7 @@ def scenarios(g, cfg, rng, conf=None):
         elif lab["op"] == "Begin" and g.stopped(f):
             pre = g.acts(f)
             if len(pre) <= 1:
-                late.add((g.pool(f), g.dial(f), pre, (lab["k"], lab["m"]), g.st(f)[8] == done_ix))
+                late.add((g.pool(f), g.dial(f) + 10 * g.never(f), pre, (lab["k"], lab["m"]), g.st(f)[8] == done_ix))
     out = []
     for (pool, dial, acts), ats in sorted(keys.items()):
         moments = list(cfg["moments"])
@@ -409,7 +412,8 @@ def write_scenarios(scn, fn):
         for i, s in enumerate(scn):
             s["id"] = i
             f.write(json.dumps({"id": i,
-                                "init_obs": {"pool": s["pool"], "dial": s["dial"], "stop": 0, "calls": [], "reopen": 0},
+                                "init_obs": {"pool": s["pool"], "dial": s["dial"] % 10, "never": s["dial"] // 10,
+                                             "stop": 0, "calls": [], "reopen": 0},
                                 "steps": [{"act": a, "obs": None, "viol": []} for a in s["steps"]]},
                                separators=(",", ":")) + "\n")
 
@@ -424,7 +428,7 @@ class Conformance:
         self.can_ret = {k: g.back_reach(lambda l, k=k: l["op"] == "Ret" and l["k"] == k) for k in range(1, 7)}
         self.init_by_pool = {}
         for n in g.inits:
-            self.init_by_pool.setdefault((g.pool(n), g.dial(n)), []).append(n)
+            self.init_by_pool.setdefault((g.pool(n), g.dial(n), g.never(n)), []).append(n)
         self._mh = {}
 
     def may_hang(self, n):
@@ -475,7 +479,8 @@ class Conformance:
         """Returns None if the observed trace is a behaviour of the model, else a dict
         describing the first step at which it leaves the model."""
         g = self.g
-        S = g.closure(self.init_by_pool.get((tr["init_obs"]["pool"], tr["init_obs"].get("dial", 0)), []))
+        io = tr["init_obs"]
+        S = g.closure(self.init_by_pool.get((io["pool"], io.get("dial", 0), io.get("never", 0)), []))
         if not S:
             return dict(step=0, what="no model state for this pool")
         for i, s in enumerate(tr["steps"]):
